@@ -34,6 +34,9 @@ ASSUMPTIONS = ["table dispositions were assigned by reading the constructs of th
 
 RESYNC_FINDING_KEY = "C17:resync:lexical-error-skips-rest-of-clause"
 BOM_FINDING_KEY = "C18:bom:skipped-only-at-stream-start"
+# error kinds that can only be detected while scanning characters (triaged by reading lexer.rs)
+LEXICAL_KINDS = {"BackQuotedString", "IncompleteReduction", "InvalidSingleQuotedCharacter", "MissingQuote", "NonPrologChar", "ParseBigInt", "ParseFloat",
+                 "UnexpectedChar", "Utf8Error", "IO"}
 # reader methods that move past reported bytes (read_char does NOT: it reports an error without consuming)
 SKIP_RX = re.compile(r"CharRead>?::(skip_bad_bytes|consume)$")
 
@@ -144,6 +147,28 @@ def run(ctx, R):
         for _, r, _ in hir_calls(a["body"]):
             if r and r in F.items and F.items[r]["file"].startswith("src/parser/") and _loops_and_consumes(F, r):
                 resync = True
+    # while that finding stands, every error kind raised *inside the lexer* aborts tokenisation in the middle of a clause;
+    # errors detected on complete tokens belong in the parser, which has consumed the clause up to its end token.
+    # The kinds the lexer raises are therefore a closed table: a new one widens the desynchronisation.
+    from .core import CallGraph, res_name
+    cg = CallGraph(F)
+    under = sorted(p for p in cg.reach([lex["next_token"]]) if p in F.items and F.items[p]["file"] == "src/parser/lexer.rs")
+    kinds = {}
+    for p in under:
+        try:
+            ph = F.hir(p)
+        except AnchorLost:
+            continue
+        for x in walk(ph["body"]):
+            r = res_name(x) if x["k"] == "Path" else (x.get("resolved") or x.get("callee")) if x["k"] == "Call" else None
+            if r and "ParserErrorKind::" in r:
+                kinds.setdefault(r.split("ParserErrorKind::")[1], set()).add(short(p))
+    R.floor("error kinds raised by the lexer", len(kinds), 8)
+    for k in sorted(kinds):
+        R.ob("C17:resync:lexical-error-kind:%s" % k, k in LEXICAL_KINDS,
+             "%s raise(s) ParserErrorKind::%s inside the lexer: the error aborts tokenisation in the middle of the clause, and (recorded finding) the rest of the clause is "
+             "then read as the next clause. Errors that can be detected on the complete token (%s is not on the lexer's table) must be raised by the parser, after the clause "
+             "has been consumed up to its end token" % (sorted(kinds[k]), k, k), F.where(lex["next_token"]))
     R.ob(RESYNC_FINDING_KEY, resync,
          "read_tokens returns a lexical error at once: the rest of the offending clause stays in the input and is read as the next clause(s). "
          "`a. 'x\\qy'. c. d.` read term by term gives a, two syntax errors, a third error that swallows `c. d.`, end_of_file — c and d are lost; "
